@@ -18,6 +18,7 @@ import Driver.ConnT
 import Driver.UisT
 import Driver.RuisT
 import Driver.ContainerT
+import Driver.CrashT
 import Driver.EventT
 open Driver
 
@@ -59,6 +60,8 @@ def components : List (String × Comp) := [
   ("uis", UisT.comp),
   ("ruis", RuisT.comp),
   ("container", ContainerT.comp),
+  ("ruisx", CrashT.ruisComp),
+  ("containerx", CrashT.contComp),
   ("event", EventT.comp)
 ]
 
